@@ -23,6 +23,7 @@ type BGVCase struct {
 	CtLevel  int       `json:"ctLevel"`
 	CtScale  uint64    `json:"ctScale"`
 	Signed   bool      `json:"signed,omitempty"` // diagonals handed over as []int64 (centred) instead of []uint64
+	BFV      bool      `json:"bfv,omitempty"`    // scale-invariant (BFV-style) evaluator: Rescale is documented as a nop
 	LTs      []LT      `json:"lts"`
 	Mode     string    `json:"mode"`
 	OutExtra int       `json:"outExtra,omitempty"` // receiver allocated this many levels above the expected output level
@@ -99,6 +100,7 @@ func genBGV(t *rapid.T) BGVCase {
 		c.CtScale = rapid.Uint64Range(1, T-1).Draw(t, "ctScale")
 	}
 	c.Signed = rapid.IntRange(0, 3).Draw(t, "signed") == 0
+	c.BFV = rapid.IntRange(0, 3).Draw(t, "bfv") == 0
 	c.Mode = modes[rapid.IntRange(0, len(modes)-1).Draw(t, "mode")]
 	nLT := 1
 	if isMany(c.Mode) || isSeq(c.Mode) {
@@ -416,7 +418,7 @@ func runBGV(c BGVCase, rec *h.Rec) error {
 	keys := kgen.GenGaloisKeysNew(galEls, sk, rlwe.EvaluationKeyParameters{LevelP: &lp})
 	ks := newRecKeySet(keys)
 
-	base := bgv.NewEvaluator(params, nil)
+	base := bgv.NewEvaluator(params, nil, c.BFV)
 	if c.Warm {
 		// the evaluator has a history: its shared buffers are not zero (as in any real program)
 		wk := rlwe.NewMemEvaluationKeySet(nil, kgen.GenGaloisKeyNew(params.GaloisElement(1), sk))
@@ -425,7 +427,10 @@ func runBGV(c BGVCase, rec *h.Rec) error {
 			return h.Failf(tag+":warmup", "%v", err)
 		}
 	}
-	ltEval := bgvlt.NewEvaluator(base.WithKey(ks))
+	evl := base.WithKey(ks)
+	// (WithKey used to drop the ScaleInvariant flag - a finding of C10 fixed by lattigo commit 75065df; the flag is no
+	// longer re-set here, so a regression shows as a level/scale failure of the sequential modes)
+	ltEval := bgvlt.NewEvaluator(evl)
 
 	// expected levels / scales / values and the hard noise bound
 	type stage struct {
@@ -458,6 +463,11 @@ func runBGV(c BGVCase, rec *h.Rec) error {
 			cur = models[i](cur)
 			v = step(v, nd(i))
 			ok = ok && fits(v, lvl)
+			if c.BFV {
+				// scale-invariant evaluator: Rescale is a nop, the level and the scale factor stay
+				sc = mulmod(sc, l.Scale, T)
+				continue
+			}
 			if lvl == 0 {
 				rec.Class("invalid-case:seq-levels")
 				return nil
@@ -517,7 +527,7 @@ func runBGV(c BGVCase, rec *h.Rec) error {
 	})
 	if pbuf != "" {
 		if rec.Known(keyPBuffer, pbuf) {
-			rec.Class("known=P-limbs-in-Q-buffer")
+			rec.Class("known=" + keyPBuffer)
 			return nil
 		}
 		return h.Failf(keyPBuffer, "%s", pbuf)
@@ -558,6 +568,9 @@ func runBGV(c BGVCase, rec *h.Rec) error {
 	if 2*n < N {
 		rec.Class("sparse-packing")
 	}
+	if c.BFV {
+		rec.Class("scale-invariant-evaluator")
+	}
 	if c.LevelP < len(c.P.P)-1 {
 		rec.Class("levelP<max")
 	}
@@ -570,10 +583,10 @@ func runBGV(c BGVCase, rec *h.Rec) error {
 	for i, o := range outs {
 		e := exp[i]
 		if o.Level() != e.level {
-			return h.Failf(tag+":output-level", "output %d at level %d, documented min(ct level, LevelQ)%s = %d", i, o.Level(), map[bool]string{true: " minus one per rescale"}[isSeq(c.Mode)], e.level)
+			return h.Failf(tag+":output-level", "output %d at level %d, documented min(ct level, LevelQ)%s = %d", i, o.Level(), map[bool]string{true: " minus one per rescale"}[isSeq(c.Mode) && !c.BFV], e.level)
 		}
 		if got := o.Scale.Uint64(); got != e.scale {
-			return h.Failf(tag+":output-scale", "output %d has scale %d, want ct.Scale*lt.Scale%s = %d (mod t)", i, got, map[bool]string{true: "/q per rescale"}[isSeq(c.Mode)], e.scale)
+			return h.Failf(tag+":output-scale", "output %d has scale %d, want ct.Scale*lt.Scale%s = %d (mod t)", i, got, map[bool]string{true: "/q per rescale"}[isSeq(c.Mode) && !c.BFV], e.scale)
 		}
 		if !e.ok {
 			allOK = false
@@ -602,7 +615,7 @@ func runBGV(c BGVCase, rec *h.Rec) error {
 		}
 	}
 	if nontrivial && allOK {
-		rec.NonTrivial(fmt.Sprintf("bgv/%s/N=%d/n=%d/lp<max=%v/ctl<max=%v/%s", c.Mode, N, n, c.LevelP < len(c.P.P)-1, c.CtLevel < maxLevel, ltDescriptor(c.LTs, n, maxLevel)))
+		rec.NonTrivial(fmt.Sprintf("bgv/%s/bfv=%v/N=%d/n=%d/lp<max=%v/ctl<max=%v/%s", c.Mode, c.BFV, N, n, c.LevelP < len(c.P.P)-1, c.CtLevel < maxLevel, ltDescriptor(c.LTs, n, maxLevel)))
 	}
 	return nil
 }
